@@ -959,6 +959,36 @@ func ruleTAB4(w *World) []Ob {
 			}
 		}
 	})
+	// through a constructor: newVerifyError(…, extra, missing) whose parameters are stored into the fields
+	allInstrs(fn, func(in ssa.Instruction) {
+		c, ok := in.(*ssa.Call)
+		if !ok || c.Common().StaticCallee() == nil || !p.InModule(c.Common().StaticCallee()) {
+			return
+		}
+		g := c.Common().StaticCallee()
+		for i, a := range c.Common().Args {
+			if i >= len(g.Params) {
+				continue
+			}
+			which := ""
+			switch {
+			case sameVar(a, slices[0]):
+				which = "extra"
+			case sameVar(a, slices[1]):
+				which = "missing"
+			default:
+				continue
+			}
+			allInstrs(g, func(in2 ssa.Instruction) {
+				if st, ok := in2.(*ssa.Store); ok {
+					if fa, ok := st.Addr.(*ssa.FieldAddr); ok && sameVar(st.Val, g.Params[i]) {
+						_, f, _ := fieldOf(fa)
+						carries[which+"→"+f] = true
+					}
+				}
+			})
+		}
+	})
 	if carries["extra→extra"] && carries["missing→noExists"] {
 		l.ok(p.FuncID(fn), "error lists are the computed lists", p.Pos(fn.Pos()), "extra → verifyError.extra, missing → verifyError.noExists", true, "verdict")
 	} else {
@@ -1062,6 +1092,35 @@ func ruleTAB4(w *World) []Ob {
 				}
 			})
 		}
+		// one map from path to "met on disk" is the same comparison: the second membership test is then the bool
+		// value looked at while ranging over that map
+		for _, f := range fam {
+			allInstrs(f, func(in ssa.Instruction) {
+				ex, ok := in.(*ssa.Extract)
+				if !ok || ex.Index != 2 {
+					return
+				}
+				nx, ok := ex.Tuple.(*ssa.Next)
+				if !ok || nx.IsString {
+					return
+				}
+				if b, isB := ex.Type().Underlying().(*types.Basic); !isB || b.Kind() != types.Bool {
+					return
+				}
+				for _, r := range *ex.Referrers() {
+					switch x := r.(type) {
+					case *ssa.If:
+						lookupsNeg++
+					case *ssa.UnOp:
+						for _, r2 := range *x.Referrers() {
+							if _, isIf := r2.(*ssa.If); isIf {
+								lookupsNeg++
+							}
+						}
+					}
+				}
+			})
+		}
 		if lookupsNeg < 2 {
 			okAll = false
 			why = append(why, "expected two membership tests (disk entry ∉ markdown set ⇒ extra; markdown path ∉ disk set ⇒ missing)")
@@ -1079,7 +1138,23 @@ func ruleTAB4(w *World) []Ob {
 			v = resolve(stripConv(v))
 			switch x := v.(type) {
 			case *ssa.Call:
-				return calleeFullName(x.Common()) == "path/filepath.Join" || calleeFullName(x.Common()) == "path/filepath.Clean"
+				if calleeFullName(x.Common()) == "path/filepath.Join" || calleeFullName(x.Common()) == "path/filepath.Clean" {
+					return true
+				}
+				if f := x.Common().StaticCallee(); f != nil && p.InModule(f) && f.Blocks != nil && !callsItself(f) {
+					// a path helper: every return is itself a joined path
+					n, all := 0, true
+					allInstrs(f, func(in ssa.Instruction) {
+						if r, ok := in.(*ssa.Return); ok && len(rr(r)) == 1 {
+							n++
+							if !originOK(rr(r)[0], d+1) {
+								all = false
+							}
+						}
+					})
+					return all && n > 0
+				}
+				return false
 			case *ssa.Phi:
 				for _, e := range x.Edges {
 					if !originOK(e, d+1) {
